@@ -368,6 +368,7 @@ def import_rules(ck, module, mapping):
     tmp.analysis_error = None
     try:
         module.check(tmp)
+        tmp.finish()
     except AnalysisError as ex:
         if not any(o["rule"] in mapping for o in tmp.obligations):
             raise
